@@ -1,6 +1,6 @@
 //! The real side: the same operations executed on `boa_gc`, plus observation and comparison.
 
-use crate::model::{Caps, M, NONE, Op, Sizes, feat, hash2};
+use crate::model::{Caps, M, NONE, Op, Sizes, hash2};
 use boa_gc::{Ephemeron, Finalize, Gc, GcRefCell, Trace, WeakGc, WeakMap, force_collect};
 use std::cell::RefCell;
 use std::fmt::Write as _;
@@ -21,6 +21,10 @@ pub struct Tab {
     pub notes: Vec<String>,
 }
 thread_local! { pub static TAB: RefCell<Tab> = RefCell::new(Tab::default()); }
+thread_local! { pub static STAGE: RefCell<String> = const { RefCell::new(String::new()) }; }
+fn stage(s: String) {
+    STAGE.with(|x| *x.borrow_mut() = s);
+}
 
 pub struct Canary {
     serial: usize,
@@ -105,12 +109,10 @@ pub struct Viol {
     pub expected: String,
     pub observed: String,
     pub step: usize,
-    /// true when the heap may be damaged: the process must not touch it any more
-    pub dirty: bool,
 }
 
 fn viol(kind: &str, detail: String, expected: String, observed: String) -> Viol {
-    Viol { kind: kind.into(), detail, expected, observed, step: 0, dirty: true }
+    Viol { kind: kind.into(), detail, expected, observed, step: 0 }
 }
 
 pub fn stats_tuple() -> (usize, usize, usize, usize, usize) {
@@ -296,11 +298,12 @@ impl Real {
             Op::MapNew => self.map = Some(WeakMap::new()),
             Op::MapDropHost => self.map = None,
             Op::MapStore(i) => {
-                let m = self.map.as_ref().unwrap().clone();
+                // WeakMap<K, V> is Clone only for K: Clone, so the single map handle MOVES between host and node
+                let m = self.map.take().unwrap();
                 *self.g(i).map.borrow_mut() = Some(m);
             }
             Op::MapTake(i) => {
-                let m = self.g(i).map.borrow().clone();
+                let m = self.g(i).map.borrow_mut().take();
                 match m {
                     Some(m) => self.map = Some(m),
                     None => return Err(viol("obs-mismatch", format!("node {i} has lost its stored weak map"), "Some".into(), "None".into())),
@@ -318,13 +321,7 @@ impl Real {
                     return Err(viol("op-result", format!("WeakMap::remove({k}) returned {r}"), format!("{expect:?}"), format!("{r}")));
                 }
             }
-            Op::Collect => {
-                force_collect();
-                let res: Vec<(u8, Gc<Node>)> = TAB.with(|t| std::mem::take(&mut t.borrow_mut().res_out));
-                for (id, h) in res {
-                    self.handles[id as usize].push(h);
-                }
-            }
+            Op::Collect => force_collect(),
             Op::ArmHost(i) => {
                 let s = pre.nodes[i as usize].serial;
                 let me = WeakGc::new(self.g(i));
@@ -336,6 +333,11 @@ impl Real {
                 let into = Some(self.g(j).clone());
                 TAB.with(|t| t.borrow_mut().arms[s] = Some(ArmSlot { me, into }));
             }
+        }
+        // handles that armed finalizers stored in the host slot (a collection can also run inside an allocating op)
+        let res: Vec<(u8, Gc<Node>)> = TAB.with(|t| std::mem::take(&mut t.borrow_mut().res_out));
+        for (id, h) in res {
+            self.handles[id as usize].push(h);
         }
         Ok(())
     }
@@ -372,21 +374,33 @@ impl Real {
             }
         }
         let st = stats_tuple();
-        let exp = (m.n_strongs(), m.n_weaks(), m.n_weak_maps(), m.bytes(), m.colls as usize);
-        let got = (st.0, st.1, st.2, st.3, st.4 - colls0);
+        let _ = colls0; // the number of collections is not part of the property
+        let exp = (m.n_strongs(), m.n_weaks(), m.n_weak_maps(), m.bytes());
+        let got = (st.0, st.1, st.2, st.3);
         if exp != got {
-            let kind = if exp.0 != got.0 {
-                "stats-strongs"
-            } else if exp.1 != got.1 {
-                "stats-weaks"
-            } else if exp.2 != got.2 {
-                "stats-weak-maps"
-            } else if exp.3 != got.3 {
-                "stats-bytes"
-            } else {
-                "stats-collections"
-            };
-            return Err(viol(kind, format!("heap statistics (strongs, weaks, weak_maps, bytes, collections): real {got:?}, model {exp:?}"), format!("{exp:?}"), format!("{got:?}")));
+            // boxes that became unreferenced in the post-sweep step may already be gone (if defect 17 gets fixed)
+            let lag = m.lag_sizes();
+            let mut ok = false;
+            for mask in 1u32..(1u32 << lag.len()) {
+                let k = mask.count_ones() as usize;
+                let bytes: usize = (0..lag.len()).filter(|i| mask & (1 << i) != 0).map(|i| lag[i]).sum();
+                if (exp.0, exp.1 - k, exp.2, exp.3 - bytes) == got {
+                    ok = true;
+                    break;
+                }
+            }
+            if !ok {
+                let kind = if exp.0 != got.0 {
+                    "stats-strongs"
+                } else if exp.1 != got.1 {
+                    "stats-weaks"
+                } else if exp.2 != got.2 {
+                    "stats-weak-maps"
+                } else {
+                    "stats-bytes"
+                };
+                return Err(viol(kind, format!("heap statistics (strong boxes, ephemeron boxes, weak-map boxes, bytes): real {got:?}, model {exp:?}"), format!("{exp:?}"), format!("{got:?}")));
+            }
         }
         let real = self.render(m)?;
         let model = m.render();
@@ -544,25 +558,31 @@ pub struct Outcome {
 /// Replay a whole history on a fresh heap. `check_all`: compare after every step (single-history
 /// mode); otherwise only after the last one (the prefixes were compared when they were explored).
 /// Err(None) = the history is not valid (an op is not enabled).
-pub fn run_history(n: u8, sizes: Sizes, caps: Caps, hist: &[Op], check_all: bool, trace: Option<&mut Vec<String>>) -> Result<Outcome, Option<Viol>> {
+pub fn run_history(n: u8, sizes: Sizes, caps: Caps, gc_alloc: bool, hist: &[Op], check_all: bool, trace: Option<&mut Vec<String>>) -> Result<Outcome, Option<Viol>> {
     let z = stats_tuple();
     if (z.0, z.1, z.2, z.3) != (0, 0, 0, 0) {
-        return Err(Some(Viol { step: 0, dirty: true, ..viol("heap-not-empty", format!("heap not empty at the start of a replay: {z:?}"), "(0,0,0,0)".into(), format!("{z:?}")) }));
+        return Err(Some(Viol { step: 0, ..viol("heap-not-empty", format!("heap not empty at the start of a replay: {z:?}"), "(0,0,0,0)".into(), format!("{z:?}")) }));
     }
     reset_tab();
     let colls0 = z.4;
     let mut m = M::new(n, sizes, caps);
+    m.gc_alloc = gc_alloc;
+    if gc_alloc {
+        boa_gc::verif::set_schedule(boa_gc::verif::Schedule::Every(1));
+    }
     let mut r = Real::new(n);
     let mut last = String::new();
     let mut trace = trace;
     for (step, &op) in hist.iter().enumerate() {
         if !m.enabled(op) {
+            boa_gc::verif::set_schedule(boa_gc::verif::Schedule::Off);
             drop(r);
             teardown_arms();
             let _ = clean_heap("after an invalid history");
             return Err(None);
         }
         let pre = m.clone();
+        stage(format!("step {step} {}", op.show()));
         let expect = m.apply(op);
         if let Err(mut v) = r.apply(&pre, op, expect) {
             v.step = step;
@@ -594,6 +614,8 @@ pub fn run_history(n: u8, sizes: Sizes, caps: Caps, hist: &[Op], check_all: bool
     // node ever allocated must have been dropped exactly once, each still-allocated one finalized once more.
     let alive_serials: Vec<usize> = m.nodes.iter().filter(|nd| nd.alive).map(|nd| nd.serial).collect();
     let total = m.fin.len();
+    stage("teardown (every host handle dropped, then collect x3)".into());
+    boa_gc::verif::set_schedule(boa_gc::verif::Schedule::Off);
     drop(r);
     teardown_arms();
     let fin_before: Vec<u32> = TAB.with(|t| t.borrow().fin.clone());
@@ -635,4 +657,3 @@ fn teardown_arms() {
     });
 }
 
-pub const _FEAT_USED: u16 = feat::FREED;
